@@ -71,16 +71,18 @@ prop("C10", "nitrocheck",
      technique="model-based stateful property testing (shard concatenation vs frozen content, error injection); free-running concurrent visits sampled",
      design_ref="DESIGN.md §3 C10",
      level_text="Generated snapshots/shard counts/concurrency/error placements against the frozen content; termination observed through a generous watchdog.",
-     level_note=SEQ_NOTE + " Shard ids >= the requested shard count are tolerated (the statement does not bound them).")
+     level_note=SEQ_NOTE + " Shard ids passed to the callback must lie in [0, shards).")
 
 prop("C05", "nitrocheck",
-     [dict(name="TestC05", quick=500, thorough=5000, thorough_shards=16, steps=30)],
+     [dict(name="TestC05", quick=500, thorough=5000, thorough_shards=14, steps=30),
+      dict(name="TestC05OneCPU", quick=150, thorough=3000, thorough_shards=2, steps=30, wrap=["taskset", "-c", "0"])],
      rule="rapid state machine: histories (single/bulk puts and deletes, snapshot churn, GC; drawn comparator, memory mode, delta interleaving, 1-3 writers) with up to 3 "
           "backup cycles each: StoreToDisk of a drawn open snapshot (latest or older; store concurrency 1-8; DiskBlockSize 512K/64/16; optionally a pre-drawn mutation script "
           "of puts/deletes/snapshots/closes/GC executed from inside the ItemCallback after the k-th item), LoadFromDisk into a fresh instance (load concurrency 1/2/4/8/17, "
           "writers created before or after), then: items reported by the restore, scan, Count, ItemsCount and node_count equal the stored snapshot's frozen content; "
           "0-25 further model-checked operations and a snapshot on the restored instance. Non-trivial: stored snapshot non-empty and (another physical version of one of its "
-          "keys existed at store time, or >=1 item was restored through delta files, or it was not the latest state). Distinct = distinct hash of the rendered history.",
+          "keys existed at store time, or >=1 item was restored through delta files, or it was not the latest state). Distinct = distinct hash of the rendered history. TestC05OneCPU: the same property in a process restricted to one CPU "
+          "(taskset -c 0): StoreToDisk partitions into runtime.NumCPU() shards, so only there the single-shard backup path runs.",
      technique="model-based stateful property testing with store/load round trip and callback-driven concurrent mutation",
      design_ref="DESIGN.md §3 C05",
      level_text="Round-trip oracle on generated databases and configurations, including mutation and collection during the backup (deterministic hand-over from the item callback).",
